@@ -7,8 +7,9 @@ chk("C02", "static analysis: MIR gated-path decision tables vs std slice-indexin
     "Trusted: rustc MIR construction; the models of len/overflowing_sub/as_ptr/offset/from_raw_parts; the arithmetic fact "
     "(len/N)*N <= len and len%N <= len for the chunk functions.")
 chk("C03", "static analysis: exact byte-class computation + MIR decision tables vs str::get / is_char_boundary",
-    "The byte class tested by the boundary predicates is computed exactly over all 256 bytes and must equal the "
-    "non-continuation bytes; the strict/forgiving predicates, get_up_to/get_from/get_range and the clamping "
+    "The byte classes tested by the boundary predicates are computed exactly over all 256 bytes (all tests of one byte are decided "
+    "over the partition of 0..255 they generate, so any spelling of the test - one mask, two comparisons, a nibble table - is compared "
+    "by meaning) and must select the non-continuation bytes; the strict/forgiving predicates, get_up_to/get_from/get_range and the clamping "
     "str_up_to/str_from/str_range/split_at are compared (callees inlined to raw views) with std's str::get / documented "
     "clamping / panic-inside-a-char rule for every order type of (len,start,end) x boundary-ness of each indexed byte. "
     "Symbolic in the string, so all strings and indices are covered.",
@@ -18,7 +19,7 @@ chk("C13", "static analysis: slice-provenance (cut kind) vs offset-update typest
     "Inductive invariant 'remainder == original[start..end]' is checked as one proof obligation per Parser-producing function "
     "(15 combinators, 13 parse_*, new, with_start_offset, skip, skip_back): the D1 provenance of the new remainder w.r.t. the "
     "old one (Suffix/Prefix/Middle, computed from the callees' own bodies) must match the start_offset update actually "
-    "performed and the direction set (a Parser value the analysis cannot recognise is itself a violation); methods written in "
+    "performed and the direction set (a cut must set it) (a Parser value the analysis cannot recognise is itself a violation); methods written in "
     "terms of a looping Parser method (skip, skip_back) compose with the law that method's own row establishes; errors must be "
     "built from the pre-operation parser; ParseError::new/other_error/offset "
     "and the accessors are decided as tables; parse_direction/len/into_error/into_other_error and ParseError::{error_direction,kind,"
@@ -46,7 +47,8 @@ chk("C16", "static analysis: MIR decision tables vs Ord/PartialEq, lexicographic
     "Trusted: rustc MIR; the step from one-iteration tables to the whole loop is the standard induction on the counter "
     "(premises checked: init 0, +1, guard). The macros (const_cmp_for!/const_eq_for! option, slice, range and range_inclusive arms in all four "
     "comparator forms, const_cmp!/const_eq! on each supported type, assertc_eq!/assertc_ne!) are expanded in a witness crate "
-    "(45 + 6 witnesses, incl. the range and range_inclusive arms of const_eq_for!) and decided by the same tables (TAB-MACRO, TAB-ASSERT: returns exactly when the relation holds).")
+    "(45 + 6 witnesses, incl. the range and range_inclusive arms of const_eq_for!) and decided by the same tables (TAB-MACRO, TAB-ASSERT: returns exactly when the relation holds); the documented call shapes with one operand's type inferred "
+    "from the other must compile (ACC-INFER).")
 chk("C05", "static analysis: exact byte-set computation, MIR iteration decision tables, delegation rules",
     "The byte set removed by the whitespace trimmers is computed exactly from the loop's continue condition and must equal "
     "u8::is_ascii_whitespace; the strip_prefix/strip_suffix loops and the two-level trim_*_matches loops are compared as "
@@ -63,7 +65,8 @@ chk("C04", "static analysis: matcher restart-completeness lint, scan-completenes
     "'candidates exhausted -> None', hit test = the C05 prefix test on the haystack sliced at the candidate; an empty pattern in forward search hits at the "
     "first candidate or leaves through an explicit `Some(0)`). The skip/keep "
     "forms must be find/rfind composed with slice_from/slice_up_to at pos / pos+len, split_once/rsplit_once are decided as "
-    "tables, and 16 delegation rows tie the public str/bytes functions (all four pattern kinds) to the matchers.",
+    "tables, and 16 delegation rows tie the public str/bytes functions (all four pattern kinds) to the matchers (a path may answer 'not "
+    "found' without searching only under len(haystack) < len(pattern)).",
     "Trusted: rustc MIR; C05's prefix test. A matcher of any other shape (e.g. KMP) is not decided: the SCAN floor then fails "
     "closed. Reverse search with an empty pattern is outside the property.")
 chk("C12", "static analysis: exact byte classes from MIR branch conditions, recurrence/overflow-flag dataflow, loop-exit decision tables",
@@ -116,7 +119,8 @@ chk("C08", "static analysis: one-step MIR decision tables over (offset,count) vi
     "right item/remainder parts; all 8 *Rev types must be the forward types stepping from the other end, rev()/copy() "
     "keep the fields; constructors assert size != 0 and pre-split the exact variants at len - len%size / len%size; "
     "remainder/as_slice accessors of forward and reversed types, iter/iter_copied and the four slice const_into_iter impls build the "
-    "iterator over the given slice. Symbolic in slice length, size and element type.",
+    "iterator over the given slice; array_chunks is as_chunks(slice), whose table (C02 TAB-CHUNKS) is decided here too. Symbolic in "
+    "slice length, size and element type.",
     "Trusted: rustc MIR; arithmetic facts a-b<=a, (a-b==0 <=> a==b), a%b<b. The div/mod split points are matched against an "
     "idiom list (an equivalent rewrite in a new idiom is reported as unrecognised). Histories follow by the simulation "
     "argument over one-step tables (DESIGN.md App. E).")
@@ -131,17 +135,20 @@ chk("C19", "static analysis: MIR decision tables of macro expansions in a witnes
     "payload (argument provenance of a sink call), Err must propagate / skip; components must be assigned left to right "
     "(ORD-REBIND: the same place at positions k and k+1 must end up holding component k+1, every adjacent pair of every "
     "arity, both macros). A token lint over the macro definitions "
-    "rejects fragment specifiers inside transcribers (this found the arity>=3 defect).",
+    "rejects fragment specifiers inside transcribers (this found the arity>=3 defect); HYGIENE lint on the 43 macros of the family; all "
+    "35 option/result forms re-typed with payload and error types that are neither Copy nor Clone must compile (ACC-NONCOPY), as must "
+    "the documented shapes with an operand type inferred from the other (ACC-INFER).",
     "Trusted: rustc's macro expansion and MIR for the witness crate; marker functions are opaque (`#[inline(never)] loop{}`), "
     "so results hold for every closure. The accept family is sampled per arity in the quick tier (uniform + mixed kinds).",
     cat="other")
 chk("C17", "static analysis: compile-reject / compile-accept witness programs with matched diagnostics, compile_error! inventory",
-    "A generated family of about 145 reject programs, each with an accept twin differing only in the offending element, is compiled "
+    "A generated family of about 315 reject programs, each with an accept twin differing only in the offending element, is compiled "
     "by the real stable rustc against the current konst: destructure! x {Drop type (braced/tuple struct, generic, path/type "
     "form, +-annotation), reference ({&, &mut} x 10 shapes incl. generic type-form / turbofish / self:: paths x +-annotation), "
     "wrong field/element count (6 shapes), `..` rest (3 shapes)}, "
     "iterator DSL x {double reversal for every reverser and all three macros, unknown methods, consumer in adapter-only "
-    "macro, arguments to argument-less methods, argument-shape guards}, parser_method! x {non-literal pattern for all six "
+    "macro, arguments to argument-less methods, argument-shape guards; the first four also with the offender after each state-"
+    "rebuilding adapter (map, flatten, flat_map, zip, take_while, skip, enumerate, filter) and in all three for_each! forms}, parser_method! x {non-literal pattern for all six "
     "methods incl. a const/variable/nested macro hidden inside concat!(..) and patterns that begin with or wrap a string literal "
     "(range patterns, bindings, references, parentheses - the range forms were accepted by the pinned tree: F9, fixed), missing default, branch after default, unknown method}. A reject must fail with the guard's own diagnostic "
     "(code / message / guard macro in the expansion back-trace), the twin must compile. Every compile_error! arm of the six "
@@ -187,7 +194,8 @@ chk("C11", "static analysis: MaybeUninit init-typestate (path coverage on the pr
     "MaybeUninit::new store at the pre-increment index, or a copy loop covers a variable step, or the counting argument applies "
     "(each increment preceded by its own checked store at a strictly advancing cursor: N counted stores hit N different slots); no other writer of "
     "the counter - so no control flow in a closure can reach assume_init with an unwritten slot. Element i must be the closure "
-    "applied to input i; ArrayBuilder push/build/new/as_slice follow the inited protocol (a panicking path of push must leave "
+    "applied to input i, each round under `i < len` (from_fn_!: the running index starts at 0 and advances by one per round); no "
+    "transcriber of the family declares an ordinary-looking item or generic-parameter name where caller tokens are expanded (HYGIENE); ArrayBuilder push/build/new/as_slice follow the inited protocol (a panicking path of push must leave "
     "`inited` untouched: the builder outlives the panic), Clone pushes the clone of every element of as_slice() once, in order, "
     "into a fresh builder, and only new/push/copies write `inited`; map_! forgets the consumer only after next() returned None and then builds; both collect_const passes call the "
     "same generated function and count identically.",
@@ -216,7 +224,7 @@ chk("C01", "static analysis: unsafe-operation inventory from MIR against an obli
     "`unsafe` is enumerated from MIR and must match an entry of the obligation table; an unlisted operation fails the check. "
     "Discharge: from_raw_parts/offset in the 9 getters by the path's own conditions (k=0 & n<=len, or n=len-k & k<=len, "
     "disjoint halves for split_at_mut); every bytes->str conversion by provenance (sub-range of the input's bytes) plus its "
-    "justification (boundary test on the very index cut / whole-pattern cutter on the normalised pattern / ASCII trimmers / "
+    "justification (the byte tests of the path on the very index cut leave only non-continuation bytes / whole-pattern cutter on the normalised pattern / ASCII trimmers / "
     "encoder output); the other schemas by re-running the owning rules here (chunk and array casts, from_u32 scalar set, "
     "UTF-8 encoder/decoder bits, CStr scan/walk, ArrayBuilder/ArrayConsumer protocols and drop ranges, INIT typestate (incl. the "
     "length obligation and the counting argument) and "
@@ -239,5 +247,6 @@ chk("C10", "static analysis: translation validation of macro expansions - per-it
     "method (12 (adapter,reverser) pairs, a design limitation recorded as known findings).",
     "Trusted: rustc expansion/MIR; the written equivalence between the pull-based schema and std for side-effect-free "
     "sources (DESIGN.md App. A). At most one flat_map/flatten per chain; collect_const is outside the composer (INIT for "
-    "collect_const is C11); chains whose counter is never carried round a loop are skipped and counted (TV-SKIP).",
+    "collect_const is C11); chains whose counter is never carried round a loop are skipped and counted (TV-SKIP). HYGIENE lint: no "
+    "transcriber of the macro family declares an ordinary-looking item or generic-parameter name where caller tokens are expanded.",
     cat="translation_validation")
